@@ -1274,6 +1274,9 @@ class Executor:
             return self.call_method(fn.recv, fn.name, args, kwargs, node)
         if isinstance(fn, VNative):
             return self.call_native(fn.obj, args, kwargs, node)
+        if isinstance(fn, VObj):
+            # an instance with a __call__ method: Python calls type(obj).__call__(obj, ...)
+            return self.call_method(fn, '__call__', args, kwargs, node)
         raise OutOfSubset(f'call of {fn!r}')
 
     def bind_params(self, fargs: ast.arguments, args, kwargs, env: Env, defaults_env: Env):
